@@ -20,6 +20,10 @@ var Corpus = [][]string{
 	// attribute values beyond float32's integer range, through the CLI and through the client
 	{"c create p1 127.0.0.1:$A u:1", `cli tadd p1 t1 limit_data 0 - {"bytes":2147483647}`, `cli tupd p1 t1 - {"bytes":5000000001}`, "c toxics p1",
 		`c add p1 t2 latency upstream - {"latency":16777217}`, `cli tupd p1 t2 - {"latency":20000001,"jitter":123456789}`, "c toxics p1"},
+	// a handle that has listed the toxics before: after the toxics changed (another type at the same
+	// position) the next listing through it shows the server's list, nothing of the old one
+	{"c create p1 127.0.0.1:$A u:1", `c add p1 t1 latency upstream - {"latency":100,"jitter":5}`, "h fetch h1 p1", "ht h1", "c rm p1 t1",
+		`c add p1 t2 timeout upstream - {"timeout":500}`, "ht h1", `c add p1 t3 limit_data downstream - {"bytes":100}`, "c rm p1 t2", "ht h1"},
 	// C19 (fixed): `toxiproxy-cli toxic update` without --toxicity must keep the toxic's toxicity
 	{"c create p1 127.0.0.1:$A u:1", `c add p1 t1 latency downstream 0.3 {"latency":5}`, `cli tupd p1 t1 - {"jitter":7}`, "c toxics p1"},
 }
@@ -67,6 +71,9 @@ func Episode(r *rng.R) []string {
 				ops = append(ops, fmt.Sprintf("h set %s %s %s", h, listen(), pick(r, "u:1", "u:2")))
 			default:
 				ops = append(ops, "h delete "+h)
+			}
+			if r.Chance(1, 2) {
+				ops = append(ops, "ht "+h)
 			}
 			continue
 		}
